@@ -514,6 +514,17 @@ Section Blockwise.
     matvec (K + 1) A w i = matvec K A w i + A i K * w K.
   Proof. unfold matvec. rewrite Nat.add_1_r. reflexivity. Qed.
 
+  Lemma blk_tl K (Bm : @Mat F) r tp lp i :
+    matvec K (blk Bm r 0) tp i + matvec 1 (blk Bm r K) (fun _ => lp) i
+    = matvec (K + 1) Bm (tlvec K tp lp) (r + i)%nat.
+  Proof.
+    rewrite matvec_tl, tlvec_K. unfold matvec, blk. cbn [sumn Nat.add].
+    replace (K + 0)%nat with K by lia.
+    rewrite (sumn_ext K (fun h => Bm (r + i)%nat h * tlvec K tp lp h) (fun h => Bm (r + i)%nat h * tp h))
+      by (intros h Hh; now rewrite tlvec_lt).
+    ring.
+  Qed.
+
   Section Rows.
     Variable c : @PEcfg F.
     Variables eta lam : F.
@@ -613,21 +624,163 @@ Section Blockwise.
                  = yv K - matvec K (blk M K 0) yu K).
     { unfold yv. rewrite tlvec_K. unfold matvec, blk. cbn [Nat.add].
       replace (2 * K + 0)%nat with (2 * K)%nat by lia. replace (K + K)%nat with (2 * K)%nat by lia. reflexivity. }
+    assert (W : forall h, (h < K + 1)%nat ->
+              tlvec K (fun g => c_temp y g - eta * (- temp_implicit true c (c_div y) g))
+                      (c_lnps y - matvec K (blk M (2 * K) 0) (c_div y) 0%nat) h
+              = yv h - matvec K (blk M K 0) yu h).
+    { intros h Hh. destruct (Nat.lt_ge_cases h K) as [H1|H1].
+      - rewrite tlvec_lt by assumption. now apply R2.
+      - replace h with K by lia. rewrite tlvec_K. exact R3. }
     unfold inverse_blockwise. cbv zeta. fold K. fold M.
     repeat split; cbn [c_div c_temp c_lnps].
-    - intros g Hg. rewrite <- (S1 g Hg). apply matvec_ext. intros h Hh. now apply R1.
+    - intros g Hg.
+      transitivity (matvec K (inv K (schur_div c eta lam))
+                      (fun g => yu g - matvec (K + 1) (blk M 0 K) yv g) g); [|exact (S1 g Hg)].
+      apply matvec_ext. intros h Hh. now apply R1.
     - intros g Hg. assert (Hg' : (g < K + 1)%nat) by lia.
-      pose proof (S2 g Hg') as E. unfold v in E. rewrite tlvec_lt in E by assumption. rewrite <- E.
-      rewrite matvec_tl. unfold matvec at 3. cbn [sumn]. unfold blk at 3. cbn [Nat.add].
-      replace (K + 0)%nat with K by lia.
-      rewrite R3. f_equal; [|ring].
-      unfold matvec, blk. cbn [Nat.add]. apply sumn_ext. intros h Hh. now rewrite R2.
+      rewrite blk_tl. cbn [Nat.add].
+      transitivity (matvec (K + 1) (inv (K + 1)%nat (schur_temp_logp c eta lam))
+                      (fun g => yv g - matvec K (blk M K 0) yu g) g).
+      + apply matvec_ext. exact W.
+      + rewrite (S2 g Hg'). unfold v. now apply tlvec_lt.
     - assert (Hg' : (K < K + 1)%nat) by lia.
-      pose proof (S2 K Hg') as E. unfold v in E. rewrite tlvec_K in E. rewrite <- E.
-      rewrite matvec_tl. unfold matvec at 3. cbn [sumn]. unfold blk at 3.
-      replace (K + 0)%nat with K by lia.
-      rewrite R3. f_equal; [|ring].
-      unfold matvec, blk. cbn [Nat.add]. replace (K + 0)%nat with K by lia.
-      apply sumn_ext. intros h Hh. now rewrite R2.
+      rewrite blk_tl. replace (K + 0)%nat with K by lia.
+      transitivity (matvec (K + 1) (inv (K + 1)%nat (schur_temp_logp c eta lam))
+                      (fun g => yv g - matvec K (blk M K 0) yu g) K).
+      + apply matvec_ext. exact W.
+      + rewrite (S2 K Hg'). unfold v. apply tlvec_K.
   Qed.
 End Blockwise.
+
+Section Wrappers.
+  Context {F : Type} {o : Ops F} {Fc : FieldC o}.
+  Add Field FFwr : (field_c : FieldTh o).
+  Hypothesis feqb_sound : forall x y : F, feqb x y = true -> x = y.
+
+  Theorem blockwise_resolvent inv (c : PEcfg) (eta lam : F) (x : Col) (sp : bool) :
+    is_left_inverse (cK c) (inv (cK c) (schur_div c eta lam)) (schur_div c eta lam) ->
+    is_left_inverse (cK c + 1) (inv (cK c + 1)%nat (schur_temp_logp c eta lam)) (schur_temp_logp c eta lam) ->
+    thickness (cb c) 0%nat <> 0 -> thickness (cb c) (cK c - 1)%nat <> 0 ->
+    col_eq (cK c) (inverse_blockwise inv c eta lam (col_minus_scaled x eta (implicit_terms sp c lam x))) x.
+  Proof. intros. eapply (blockwise_resolvent_gen feqb_sound); eauto. apply col_eq_refl. Qed.
+
+  Lemma stack_unstack K (v : nat -> F) h : (h < 2 * K + 1)%nat -> stack K (unstack K v) h = v h.
+  Proof.
+    intros Hh. unfold stack, unstack. cbn [c_div c_temp c_lnps].
+    destruct (Nat.ltb_spec h K); [reflexivity|].
+    destruct (Nat.ltb_spec h (2 * K)); f_equal; lia.
+  Qed.
+
+  Lemma stack_inj K (a b : @Col F) :
+    (forall h, (h < 2 * K + 1)%nat -> stack K a h = stack K b h) -> col_eq K a b.
+  Proof.
+    intros H. repeat split.
+    - intros g Hg. rewrite <- (stack_div K a g Hg), <- (stack_div K b g Hg). apply H. lia.
+    - intros g Hg. rewrite <- (stack_temp K a g Hg), <- (stack_temp K b g Hg). apply H. lia.
+    - rewrite <- (stack_lnps K a), <- (stack_lnps K b). apply H. lia.
+  Qed.
+
+  (** *** all three strategies agree on every right-hand side when [inv] returns
+      two-sided inverses of the full matrix and left inverses of the Schur blocks *)
+  Theorem blockwise_eq_split inv (c : PEcfg) (eta lam : F) (y : Col) :
+    let n := (2 * cK c + 1)%nat in
+    let M := implicit_matrix c eta lam in
+    is_left_inverse n (inv n M) M -> is_left_inverse n M (inv n M) ->
+    is_left_inverse (cK c) (inv (cK c) (schur_div c eta lam)) (schur_div c eta lam) ->
+    is_left_inverse (cK c + 1) (inv (cK c + 1)%nat (schur_temp_logp c eta lam)) (schur_temp_logp c eta lam) ->
+    thickness (cb c) 0%nat <> 0 -> thickness (cb c) (cK c - 1)%nat <> 0 ->
+    col_eq (cK c) (inverse_blockwise inv c eta lam y) (inverse_split inv c eta lam y).
+  Proof.
+    intros n M HL HR HA HB H0 HK.
+    set (x := inverse_stacked inv c eta lam y).
+    assert (Hy : col_eq (cK c) y (col_minus_scaled x eta (implicit_terms false c lam x))).
+    { apply stack_inj. intros h Hh.
+      rewrite <- matrix_is_I_minus_eta_L by assumption.
+      unfold x, inverse_stacked. cbv zeta.
+      rewrite (matvec_ext _ _ (stack (cK c) (unstack (cK c) _)) _ h (stack_unstack (cK c) _)).
+      symmetry. now apply (left_inverse_apply n M (inv n M)). }
+    eapply col_eq_trans.
+    - eapply (blockwise_resolvent_gen feqb_sound); eauto.
+    - apply col_eq_sym. apply split_eq_stacked.
+  Qed.
+
+  (** *** TimeReversedImExODE: terms negated, solve called with -eta *)
+  Theorem time_reversed inv (c : PEcfg) (eta lam : F) (x : Col) (sp : bool) :
+    is_left_inverse (2 * cK c + 1) (inv (2 * cK c + 1)%nat (implicit_matrix c (- eta) lam))
+                    (implicit_matrix c (- eta) lam) ->
+    thickness (cb c) 0%nat <> 0 -> thickness (cb c) (cK c - 1)%nat <> 0 ->
+    col_eq (cK c) (tr_implicit_inverse inv c eta lam (col_minus_scaled x eta (tr_implicit_terms sp c lam x))) x.
+  Proof.
+    intros Hinv H0 HK. unfold tr_implicit_inverse, implicit_inverse.
+    apply (split_resolvent_gen feqb_sound inv c (- eta) lam x _ sp Hinv H0 HK).
+    unfold tr_implicit_terms.
+    repeat split; cbn [col_minus_scaled col_neg c_div c_temp c_lnps]; intros; ring.
+  Qed.
+
+  (** *** PrimitiveEquationsWithTime: sim_time has zero tendency and is passed through *)
+  Theorem with_time_resolvent inv (c : PEcfg) (eta lam : F) (t : F) (x : Col) (sp : bool) :
+    is_left_inverse (2 * cK c + 1) (inv (2 * cK c + 1)%nat (implicit_matrix c eta lam)) (implicit_matrix c eta lam) ->
+    thickness (cb c) 0%nat <> 0 -> thickness (cb c) (cK c - 1)%nat <> 0 ->
+    let L := wt_implicit_terms sp c lam (t, x) in
+    let r := wt_implicit_inverse inv c eta lam (t - eta * fst L, col_minus_scaled x eta (snd L)) in
+    fst r = t /\ col_eq (cK c) (snd r) x.
+  Proof.
+    intros Hinv H0 HK. cbv zeta. unfold wt_implicit_inverse, wt_implicit_terms. cbn [fst snd]. split.
+    - ring.
+    - now apply (split_resolvent feqb_sound).
+  Qed.
+
+  (** vorticity, tracers *)
+  Theorem passive_resolvent (eta v : F) : passive_inverse (v - eta * passive_terms v) = v.
+  Proof. unfold passive_inverse, passive_terms. ring. Qed.
+End Wrappers.
+
+Section ShallowWater.
+  Context {F : Type} {o : Ops F} {Fc : FieldC o}.
+  Add Field FFsw : (field_c : FieldTh o).
+
+  Theorem sw_resolvent (Phi lam eta : F) (x : F * F) :
+    sw_schur Phi lam eta <> 0 ->
+    sw_implicit_inverse Phi lam eta (sw_minus_scaled x eta (sw_implicit_terms Phi lam x)) = x.
+  Proof.
+    intros Hs. destruct x as [d p].
+    unfold sw_implicit_inverse, sw_minus_scaled, sw_implicit_terms, sw_schur in *. cbn [fst snd].
+    f_equal; field; exact Hs.
+  Qed.
+
+  Theorem sw_L_linear (Phi lam a b : F) (x y : F * F) :
+    sw_implicit_terms Phi lam (a * fst x + b * fst y, a * snd x + b * snd y)
+    = (a * fst (sw_implicit_terms Phi lam x) + b * fst (sw_implicit_terms Phi lam y),
+       a * snd (sw_implicit_terms Phi lam x) + b * snd (sw_implicit_terms Phi lam y)).
+  Proof. unfold sw_implicit_terms. cbn [fst snd]. f_equal; ring. Qed.
+
+  Theorem sw_time_reversed (Phi lam eta : F) (x : F * F) :
+    sw_schur Phi lam (- eta) <> 0 ->
+    sw_tr_implicit_inverse Phi lam eta (sw_minus_scaled x eta (sw_tr_implicit_terms Phi lam x)) = x.
+  Proof.
+    intros Hs. unfold sw_tr_implicit_inverse.
+    transitivity (sw_implicit_inverse Phi lam (- eta) (sw_minus_scaled x (- eta) (sw_implicit_terms Phi lam x)));
+      [|now apply sw_resolvent].
+    f_equal. destruct x as [d p]. unfold sw_minus_scaled, sw_tr_implicit_terms, sw_implicit_terms. cbn [fst snd].
+    f_equal; ring.
+  Qed.
+End ShallowWater.
+
+Section ShallowWaterOrd.
+  Context {F : Type} {o : Ops F} {Oc : OrdFieldC o}.
+  Add Field FFso : (field_c : FieldTh o).
+
+  (** the side condition always holds for non-negative reference potential
+      and non-positive Laplacian eigenvalue, for every step size *)
+  Theorem sw_side_condition (Phi lam eta : F) :
+    fle 0 Phi -> fle lam 0 -> sw_schur Phi lam eta <> 0.
+  Proof.
+    intros HP Hl. unfold sw_schur.
+    assert (A : fle 0 (eta * eta * Phi)) by (apply fle_mul_pos; [apply fle_sq|exact HP]).
+    assert (B : fle 0 (- lam)) by (replace 0 with (- 0) by ring; now apply fle_opp).
+    assert (C : fle 0 (eta * eta * Phi * (- lam))) by now apply fle_mul_pos.
+    assert (D : fle 1 (1 - eta * eta * Phi * lam)).
+    { apply fle_sub_2. replace (1 - eta * eta * Phi * lam - 1) with (eta * eta * Phi * (- lam)) by ring. exact C. }
+    apply fpos_neq0. eapply flt_le_trans; [apply flt_0_1|exact D].
+  Qed.
+End ShallowWaterOrd.
